@@ -41,3 +41,48 @@ def _agree(gid, x, y, w, G, M, N):
     rhs = mul(y, add(add(mul(x, G), mul(w, M)), mul(-w, M)))
     ins = z3.And(S.f_insub(gid, G), S.f_insub(gid, M), S.f_insub(gid, N))
     return z3.Implies(ins, lhs == rhs)
+
+
+# ---- modular exponentiation (Lean: lean/SpakeTheory/PowMod.lean) ------------------------------------------------
+isprime = z3.Function("isprime", z3.IntSort(), z3.BoolSort())
+PM = sym.powmod
+
+
+@lemma("powmod_mul", 4, True, "(a*b)^e = a^e * b^e  (mod m)")
+def _powmod_mul(a, b, e, m):
+    return z3.Implies(z3.And(m > 0, e >= 0), PM((a * b) % m, e, m) == (PM(a, e, m) * PM(b, e, m)) % m)
+
+
+@lemma("powmod_pow", 4, True, "(a^k)^e = (a^e)^k  (mod m)")
+def _powmod_pow(a, k, e, m):
+    return z3.Implies(z3.And(m > 0, e >= 0, k >= 0), PM(PM(a, k, m), e, m) == PM(PM(a, e, m), k, m))
+
+
+@lemma("powmod_exp_mul", 4, True, "(a^r)^q = a^(r*q)  (mod m)")
+def _powmod_exp_mul(a, r, q, m):
+    return z3.Implies(z3.And(m > 0, r >= 0, q >= 0), PM(PM(a, r, m), q, m) == PM(a, r * q, m))
+
+
+@lemma("powmod_base_one", 2, True, "1^k = 1 (mod m)")
+def _powmod_one(k, m):
+    return z3.Implies(z3.And(m > 0, k >= 0), PM(sym.IV(1), k, m) == 1 % m)
+
+
+@lemma("powmod_zero", 3, True, "m | x, e >= 1  =>  x^e = 0 (mod m)")
+def _powmod_zero(x, e, m):
+    return z3.Implies(z3.And(m > 0, e >= 1, x % m == 0), PM(x, e, m) == 0)
+
+
+@lemma("fermat", 2, True, "p prime, p does not divide h  =>  h^(p-1) = 1 (mod p)")
+def _fermat(h, p):
+    return z3.Implies(z3.And(isprime(p), h % p != 0), PM(h, p - 1, p) == 1)
+
+
+@lemma("prime_ge_two", 1, True, "a prime is >= 2")
+def _prime_ge(p):
+    return z3.Implies(isprime(p), p >= 2)
+
+
+@lemma("prime_mul_nonzero", 3, True, "p prime, p divides neither a nor b => p does not divide a*b (Euclid)")
+def _euclid(a, b, p):
+    return z3.Implies(z3.And(isprime(p), a % p != 0, b % p != 0), (a * b) % p != 0)
